@@ -94,10 +94,10 @@ M = [
     ('replace-second-match-searches-too-far', S, "            idx = obj._s.find(old, idx + len(replace) + (0 if old else 1))", "            idx = obj._s.find(old, idx + len(replace) + 1)"),
     ('partition-uses-rfind', S, "        idx = self._s.find(sep)\n        if idx >= 0:\n            sep_len = len(sep)", "        idx = self._s.rfind(sep)\n        if idx >= 0:\n            sep_len = len(sep)"),
     ('center-left-gets-extra', S, "            left_spaces = math.floor((num) / 2)", "            left_spaces = math.ceil((num) / 2)"),
-    ('format-minus-flag-ignored-for-center', S, "        match = re.search(r'^(.?)([+-]?)\\^([0-9]*)$', string_format)\n        if match:\n            # Center\n            num = match.group(3)\n            extend_formatting = (not match.group(2) or match.group(2) == '+')",
-     "        match = re.search(r'^(.?)([+-]?)\\^([0-9]*)$', string_format)\n        if match:\n            # Center\n            num = match.group(3)\n            extend_formatting = True"),
-    ('format-spec-ansi-applied-before-pad-when-extending', S, "            if extend_formatting and settings:\n                self.apply_formatting(settings)\n            return\n\n        match = re.search(r'^(.?)([+-]?)>([0-9]*)$', string_format)",
-     "            return\n\n        match = re.search(r'^(.?)([+-]?)>([0-9]*)$', string_format)"),
+    ('format-minus-flag-ignored-for-center', S, "            # Center\n            num = match.group(3)\n            extend_formatting = (not match.group(2) or match.group(2) == '+')",
+     "            # Center\n            num = match.group(3)\n            extend_formatting = True"),
+    ('format-spec-ansi-applied-before-pad-when-extending', S, "            if extend_formatting and settings:\n                self.apply_formatting(settings)\n            return\n\n        match = re.search(r'^(.?)([+-]?)>([0-9]*)\\Z', string_format, re.DOTALL)",
+     "            return\n\n        match = re.search(r'^(.?)([+-]?)>([0-9]*)\\Z', string_format, re.DOTALL)"),
     ('tostr-format-spec-mutates-self', S, "        if format_spec:\n            # Make a copy\n            obj = self.copy()\n", "        if format_spec:\n            # Make a copy\n            obj = self.copy() if self._fmts else self\n"),
     ('getitem-slice-end-marker-lost', S, "                if settings.rem:\n                    new_s._fmts[idx - st] = _AnsiSettingPoint(rem=list(settings.rem))",
      "                if settings.rem and settings.add:\n                    new_s._fmts[idx - st] = _AnsiSettingPoint(rem=list(settings.rem))"),
@@ -109,8 +109,36 @@ M = [
     ('ansistr-payload-from-unoptimized', S, "        instance = super().__new__(cls, str(ansi_string))\n        instance._s = ansi_string\n        return instance",
      "        instance = super().__new__(cls, ansi_string.to_str(optimize=False))\n        instance._s = ansi_string\n        return instance"),
     ('ansistr-getitem-returns-ansistring', S, "        return AnsiStr(self._s.__getitem__(val))", "        return self._s.__getitem__(val)"),
-    ('simplify-keeps-invalid-rem', S, "            point.rem = [x for x in point.rem if x.valid]\n", ""),
+    ('simplify-keeps-invalid-rem', S, "            point.rem = [x for x in point.rem if x.valid and re.search(r'^[0-9; ]*\\Z', str(x))]\n", ""),
     ('set-ansi-str-drops-trailing-char-settings', S, "                if key >= len(self._s):\n                    break", "                if key >= len(self._s) - 1:\n                    break"),
+]
+
+
+# reverts of fix: commits whose plain `git show -R` no longer applies (later fixes touched the same lines):
+# (file name, [(path, old, new), ...])
+R = [
+    ('r03-revert-ae5ebc4-parse-graphic-sequence-no-longer-rewrite.patch',
+     [(P, "        items = list(sequence)\n", "        items = sequence\n")]),
+    ('r09-revert-92df313-apply-formatting-remove-formatting-clamp.patch',
+     [(S, "        end = min(self._slice_val_to_idx(end, len(self._s)), len(self._s))\n\n        is_int = isinstance(settings, int) and not isinstance(settings, bool)\n        if not settings and not is_int:",
+       "        end = self._slice_val_to_idx(end, len(self._s))\n\n        is_int = isinstance(settings, int) and not isinstance(settings, bool)\n        if not settings and not is_int:"),
+      (S, "        end = min(self._slice_val_to_idx(end, len(self._s)), len(self._s))\n\n        is_int = isinstance(settings, int) and not isinstance(settings, bool)\n        if settings is not None",
+       "        end = self._slice_val_to_idx(end, len(self._s))\n\n        is_int = isinstance(settings, int) and not isinstance(settings, bool)\n        if settings is not None")]),
+    ('r23-revert-41c5d6f-remove-formatting-leaves-the-string-unto.patch',
+     [(S, "        # Parse the settings before anything is modified since this raises an exception for invalid settings\n        if settings is None:\n            ansi_settings = None\n        else:\n            ansi_settings = _AnsiSettingPoint._scrub_ansi_settings(settings)\n\n        if start >= len(self._s) or end <= start:\n            # Ignore - empty range\n            return\n\n        if start not in self._fmts:\n            self._fmts[start] = _AnsiSettingPoint()\n\n        if end not in self._fmts:\n            self._fmts[end] = _AnsiSettingPoint()\n",
+       "        if start >= len(self._s) or end <= start:\n            # Ignore - empty range\n            return\n\n        if start not in self._fmts:\n            self._fmts[start] = _AnsiSettingPoint()\n\n        if end not in self._fmts:\n            self._fmts[end] = _AnsiSettingPoint()\n\n        if settings is None:\n            ansi_settings = None\n        else:\n            ansi_settings = _AnsiSettingPoint._scrub_ansi_settings(settings)\n")]),
+    ('r27-revert-f0913e7-format-spec-ansi-part-starting-with-digit.patch',
+     [(S, "r'(^(?:.?[-\\+]?[<>\\^])?[0-9]*)(:.*)?\\Z'", "r'(^.?[-\\+]?[<>\\^]?[0-9]*)(:.*)?\\Z'")]),
+    ('r30-revert-52e663a-the-integer-0-RESET-given-directly-as-th.patch',
+     [(S, "        if not settings and not is_int:\n", "        if not settings:\n"),
+      (S, "        if settings is not None and not settings and not is_int:\n", "        if settings is not None and not settings:\n"),
+      (S, "        if settings is None:\n            ansi_settings = None\n        else:\n            ansi_settings = _AnsiSettingPoint._scrub_ansi_settings(settings)\n\n        if start >= len(self._s) or end <= start:\n            # Ignore - empty range",
+       "        if not settings:\n            ansi_settings = None\n        else:\n            ansi_settings = _AnsiSettingPoint._scrub_ansi_settings(settings)\n\n        if start >= len(self._s) or end <= start:\n            # Ignore - empty range")]),
+    ('r32-revert-a6f2f12-format-spec-accepts-a-newline-as-fill-ch.patch',
+     [(S, "<)?([0-9]*)\\Z', string_format, re.DOTALL)", "<)?([0-9]*)$', string_format)"),
+      (S, ">([0-9]*)\\Z', string_format, re.DOTALL)", ">([0-9]*)$', string_format)"),
+      (S, "\\^([0-9]*)\\Z', string_format, re.DOTALL)", "\\^([0-9]*)$', string_format)"),
+      (S, "(:.*)?\\Z', format_spec, re.DOTALL)", "(:.*)?$', format_spec)")]),
 ]
 
 
@@ -135,6 +163,22 @@ def main():
             out = os.path.join(HERE, 'mutants', 'm%02d-%s.patch' % (i, name))
             open(out, 'w').write(d)
             n_ok += 1
+        for fname, edits in R:
+            shutil.rmtree(b, ignore_errors=True)
+            shutil.copytree(a, b)
+            ok = True
+            for path, old, new in edits:
+                fp = os.path.join(b, path)
+                s = open(fp).read()
+                if s.count(old) != 1:
+                    print('SKIP %s: anchor found %d times: %r' % (fname, s.count(old), old[:50]))
+                    ok = False
+                    break
+                open(fp, 'w').write(s.replace(old, new))
+            if ok:
+                d = subprocess.run(['diff', '-ruN', 'a/src', 'b/src'], cwd=tmp, capture_output=True, text=True).stdout
+                open(os.path.join(HERE, 'mutants', fname), 'w').write(d)
+                n_ok += 1
     finally:
         shutil.rmtree(tmp, ignore_errors=True)
     print('wrote %d mutant patches' % n_ok)
